@@ -95,6 +95,8 @@ class Recorder:
         self.item_ids = {}        # id(item) -> small int
         self.moves = []           # global item-movement trace: (step, now, kind, edge, item, node)
         self.crash = None
+        self.instant_viol = []    # (prop, rule, message) found at the end of simulated instants
+        self.awaiting = {}        # (node, proc) -> (kind, [token ordinals]) : what each live process is suspended on
 
     # ---- construction
     def add_edge(self, kind, **cfg):
@@ -243,6 +245,13 @@ class Recorder:
         act["alive"] = proc.is_alive
         act["stats"] = self.snapshot(nid)
         self.acts.append(act)
+        key = (nid, act["proc"])
+        if not proc.is_alive:
+            self.awaiting.pop(key, None)
+        else:
+            last = act["calls"][-1] if act["calls"] else ""
+            toks = [int(x.split()[2][1:]) for x in act["calls"] if x.startswith(("rg ", "rp "))]
+            self.awaiting[key] = (last, toks, act["kind"])
 
     def snapshot(self, nid):
         kind, n, cfg = self.nodes[nid]
@@ -280,6 +289,8 @@ class Recorder:
                     self.env.step()
                 except Exception as ex:
                     self.crash = (type(ex).__name__, str(ex)[:200], f2t(self.env.now)); break
+                if not self.env._queue or self.env.peek() > self.env.now:
+                    self.end_of_instant()
             if self.crash is None and self.env.now < t2f(horizon):
                 # as `env.run(until=T)` does: the clock ends at T, events at exactly T are not processed
                 try:
@@ -289,6 +300,34 @@ class Recorder:
         finally:
             CUR["rec"] = None
         return self
+
+
+def _end_of_instant(self):
+    """C10 at the end of a simulated instant: nothing the kernel could still do now."""
+    if len(self.instant_viol) > 20: return
+    now = f2t(self.env.now)
+    for nid, (kind, n, c) in enumerate(self.nodes):
+        waits = {p: w for (k, p), w in self.awaiting.items() if k == nid}
+        awaited = set(t for (_, toks, _) in waits.values() for t in toks)
+        # (1) no reservation left behind: every open token of the node is awaited by one of its processes
+        leaked = [o for o, ev in self.open_toks[nid] if o not in awaited]
+        if leaked:
+            self.instant_viol.append(("C10", "leaked-token", f"{kind} {nid} at t={now}: reservation tokens {leaked} are neither used, cancelled nor awaited"))
+        # (2) a token that is granted must have been acted upon within the instant
+        for (last, toks, pk) in waits.values():
+            for o, ev in self.open_toks[nid]:
+                if o in toks and ev.triggered and last.startswith("await any") :
+                    self.instant_viol.append(("C10", "late-resume", f"{kind} {nid} at t={now}: token {o} is granted but the waiting process has not gone on")); break
+        if kind == "machine" and n.state_rep is not None and tuple(n.state_rep) != (-1, -1):
+            b = waits.get(0)
+            busy = len(n.worker_thread.users)
+            if b is not None and busy < n.work_capacity and not b[1]:
+                self.instant_viol.append(("C10", "no-input-request", f"machine {nid} at t={now}: {busy} of {n.work_capacity} worker slots in use but it is not requesting input"))
+        if kind == "sink":
+            b = waits.get(0)
+            if b is None or not b[1]:
+                self.instant_viol.append(("C10", "no-input-request", f"sink {nid} at t={now} is not requesting input"))
+Recorder.end_of_instant = _end_of_instant
 
 
 def build(cfg):
